@@ -1,5 +1,6 @@
 import Model.Basic
-import Model.Wire
 import Model.Der
+import Model.Handlers
 import Model.Util
 import Model.UtilWire
+import Model.Wire
